@@ -83,15 +83,19 @@ CLAIMS = {
               "The specification makes Compile and Run functions of their arguments; on the TLC-enumerated corpora each "
               "source is compiled twice (programs compared byte for byte, constant for constant, by value and Go type) and "
               "each program run twice per assignment: equal results and call logs, and program, environment value and "
-              "sample environment deep-equal to pristine copies afterwards. Exploration level: determinism across "
-              "processes or map-iteration orders is sampled, not proven.",
+              "sample environment deep-equal to pristine copies afterwards; every valid operator table of OpTable.tla "
+              "(several candidates per operator) is compiled six times with the options built anew. Exploration level: "
+              "determinism across processes or map-iteration orders is sampled, not proven.",
               "DESIGN.md section 6 C09", "TLC-enumerated programs x inputs; repeated real compile/run compared"),
     "C10": _c("model_checking",
               "Walk.tla defines the promised traversal (WalkSeq) and the effect of a patching visitor (Patch) on the "
               "specification's trees; TLC checks WalkBalanced and emits, for every expression of six families up to the "
               "node budget, the event sequence and the patched source. The real ast.Walk over the real parser's tree must "
               "produce exactly that sequence, and Compile under a real Patch visitor must behave as Compile of the "
-              "patched source on every assignment.",
+              "patched source on every assignment. The clients the property names are bound too: the operator patcher must "
+              "reach every occurrence wherever it sits and whatever was walked before it (Types!Overload on the families "
+              "ovl and ovlarg, OpTable.tla expressions with several occurrences), also when a Patch visitor repairs a "
+              "failed first type check.",
               "DESIGN.md section 6 C10", "TLA+ traversal specification; TLC-enumerated trees walked and patched for real"),
     "C11": _c("model_checking",
               "Grammar.tla is the reference grammar: the binding-power and associativity tables, a printer writing only "
@@ -132,7 +136,8 @@ CLAIMS = {
     "C15": _c("model_checking",
               "The TLC-enumerated expressions and assignments compiled against the struct type, a pointer to it, a map with "
               "the same members, without any type, and evaluated with Eval: all variants that compile and succeed must "
-              "return ObsEq values.",
+              "return ObsEq values; among the struct, pointer and map shapes (the same type information) a run that fails in "
+              "one shape and succeeds in another is a changed result too.",
               "DESIGN.md section 6 C15", "TLC-enumerated programs x inputs; differential real runs across type information"),
     "C16": _c("model_checking",
               "Resolve.tla states Go's selector rule (shallowest depth, ambiguity, method sets by receiver kind, exported "
